@@ -440,6 +440,21 @@ class Gen:
         b = world.gen_probe_buffer(rng, names, max_probes=rng.randint(3, 7))
         op = {'op': 'query', 'code': b.text, 'path': None if rng.random() < 0.4 else 'probe_buf.py',
               'project': self.project, 'probes': b.probes}
+        dirs_now = [d for d in self.mods if '.' not in d and self.mods[d]['kind'] in ('package', 'namespace')
+                    and d not in self.lib_names]
+        if dirs_now and rng.random() < 0.25:
+            # the buffer lives INSIDE a directory that is a package or a plain (namespace) directory: which
+            # names `import ...` offers there depends on whether __init__.py exists right now
+            d = rng.choice(dirs_now)
+            op['path'] = '%s/inner_buf.py' % d
+            lines = op['code'].split('\n')
+            lines.insert(len(lines) - 1, 'import s')
+            op['code'] = '\n'.join(lines)
+            ln = len(lines) - 1
+            for p_ in op['probes']:
+                if p_.get('l') == ln:
+                    p_['l'] = ln + 1
+            op['probes'].append({'m': 'complete', 'l': ln, 'c': 8})
         if rng.random() < 0.12 or getattr(self, 'force_crowd', False):
             # many tabs showing this text are open while it is asked about, and closed together
             op['crowd'] = rng.randint(11, 16)
